@@ -18,6 +18,27 @@ Definition new_names (i : uinput) : list path :=
   match u_new i with Some l => with_off (u_off i) l | None => [] end.
 Definition protected_names (i : uinput) : list path := protected (u_off i).
 
+(* the base-system directories of the statement, pinned here (NOT taken from the source): the
+   regenerated _preserve_sequence must cover them (Prop_C20.protected_covers_base_system) *)
+Definition base_system_dirs : list path :=
+  map split_slash
+    [[117;115;114]%N;
+     [117;115;114;47;108;105;98]%N;
+     [117;115;114;47;108;105;98;54;52]%N;
+     [117;115;114;47;108;105;98;51;50]%N;
+     [117;115;114;47;98;105;110]%N;
+     [117;115;114;47;115;98;105;110]%N;
+     [98;105;110]%N;
+     [115;98;105;110]%N;
+     [108;105;98]%N;
+     [108;105;98;51;50]%N;
+     [108;105;98;54;52]%N;
+     [101;116;99]%N;
+     [118;97;114]%N;
+     [104;111;109;101]%N;
+     [114;111;111;116]%N].
+(* /usr /usr/lib /usr/lib64 /usr/lib32 /usr/bin /usr/sbin /bin /sbin /lib /lib32 /lib64 /etc /var /home /root *)
+
 (* p is a name the old package lists, something lives there, it is not a protected name, and
    the new package (if any) neither lists that name nor installs the object it denotes *)
 Definition removable (i : uinput) (p : path) : Prop :=
@@ -104,7 +125,7 @@ Definition spec_fs_ok (i : uinput) (s' : fs) : bool :=
                            | _ => true end) rem).
 
 Definition spec_ok (i : uinput) (r : val) : bool :=
-  match result_fs r with
+  match result_fs (u_fs i) r with
   | Some s' => spec_fs_ok i s'
   | None => false
   end.
